@@ -48,13 +48,16 @@ REQUIRED_ACTIONS = ["Log", "Finish", "StartCall", "StMask", "StSpawn", "StWait",
 def model_check(ck, quick):
     runs = []
     if quick:
-        runs.append(("MC_Life_q1", _cfg("MC_Life_q1", ["w1"], 2, 2, ALL_SIGS), True))
+        runs.append(("MC_Life_q1", _cfg("MC_Life_q1", ["w1"], 2, 2, ALL_SIGS), False))
         runs.append(("MC_Life_q2", _cfg("MC_Life_q2", ["w1"], 2, 1, '{"SEGV","INT"}', soft=1, raises=2), False))
+        runs.append(("MC_Life_qcov", _cfg("MC_Life_qcov", ["w1"], 1, 2, '{"SEGV","INT"}'), True))
     else:
-        runs.append(("MC_Life_t1", _cfg("MC_Life_t1", ["w1"], 3, 2, ALL_SIGS), True))
-        runs.append(("MC_Life_t2", _cfg("MC_Life_t2", ["w1", "w2"], 2, 2, ALL_SIGS), False))
+        runs.append(("MC_Life_t1", _cfg("MC_Life_t1", ["w1"], 3, 2, ALL_SIGS), False))
+        runs.append(("MC_Life_tcov", _cfg("MC_Life_tcov", ["w1"], 2, 2, '{"SEGV","INT"}'), True))
+        runs.append(("MC_Life_t2", _cfg("MC_Life_t2", ["w1", "w2"], 2, 2, '{"SEGV","INT"}'), False))
         runs.append(("MC_Life_t3", _cfg("MC_Life_t3", ["w1"], 2, 2, '{"SEGV","INT"}', soft=1, raises=2), False))
         runs.append(("MC_Life_t4", _cfg("MC_Life_t4", ["w1"], 2, 2, '{"SEGV","INT"}', lifecyclers='{"m","w1"}'), False))
+        runs.append(("MC_Life_t5", _cfg("MC_Life_t5", ["w1", "w2"], 3, 1, "{}"), False))
     cov = {}
     for name, cfg, coverage in runs:
         r = vlib.tlc_must("Life", cfg, coverage=coverage, timeout=150 if quick else 1500, keep_out=False)
@@ -165,7 +168,7 @@ def make_scenarios(ck, behs, quick, rng):
                     if nostart > 4:
                         continue
                 picked.append((steps, info, outcome))
-    scns = []
+    scns, rr = [], {}
     for i, (steps, info, outcome) in enumerate(picked):
         end = steps[-1]
         has_sig = end[0] == "G"
@@ -191,7 +194,8 @@ def make_scenarios(ck, behs, quick, rng):
                     fl.append("f")
                 if t == 0:
                     fl.append("p")
-                f = rng.choice(fl)
+                rr[x] = rr.get(x, -1) + 1          # flavours in turn per signal, so every one is exercised
+                f = fl[rr[x] % len(fl)]
                 if f == "k":
                     f = "k%d" % (0 if t != 0 else alive[0])
                 toks.append(f"G{t}:{SIGNUM[x]}:{f}")
@@ -216,7 +220,7 @@ def run_scenarios(exe, lines, timeout=900):
     try:
         sf = d / "scn.txt"
         sf.write_text("\n".join(lines) + "\n")
-        rc, so, se = vlib.run_cmd([exe, sf, d, str(vlib.NCPU)], timeout=timeout)
+        rc, so, se = vlib.run_cmd([exe, sf, d, str(vlib.NCPU)], timeout=timeout, env={"H_LIFE_TIMEOUT_MS": "10000"})
         if rc != 0:
             raise vlib.Infra(f"h_life failed rc={rc}: {se[-500:]}")
         obs = {}
@@ -247,7 +251,10 @@ def norm_lines(raw):
         m = _re_crit.match(s)
         if m:
             out.append({"k": "c", "t": "-", "n": 0, "sig": SIGNAME.get(int(m.group(1)), "SIG" + m.group(1))}); continue
-        out.append({"k": "x", "t": "-", "n": 0, "sig": "-"})
+        # a differently worded notice still counts (the property does not fix its text): any other line naming the signal
+        hit = [n for n, v in SIGNUM.items() if re.search(r"\bSIG%s\b" % n, s) or re.search(r"\b[Ss]ig(?:nal|num)\D{0,12}%d\b" % v, s)
+               or (signal.strsignal(v) or "\0") in s]
+        out.append({"k": "n" if len(hit) == 1 else "x", "t": "-", "n": 0, "sig": hit[0] if len(hit) == 1 else "-"})
     return out
 
 
@@ -309,6 +316,76 @@ def validate(ck, observations):
             j = json.loads(p[4:])
             rej.setdefault(owner[j["l"] - 1], []).append((j["why"], lines[j["l"] - 1]["op"]))
     return rej
+
+
+def corrupted(pairs):
+    """Self-test of the trace spec (DESIGN 2.3d): accepted observations with ONE recorded fact changed so that C07
+    would be broken. Every one of them must be rejected by the contract."""
+    import copy
+    out = []
+    def first(pred):
+        for s, o in pairs:
+            if pred(s, o):
+                return s, copy.deepcopy(o)
+        return None
+    # a statement that returned before stop() was requested is missing from the file when stop() returns
+    def stop_pred(s, o):
+        ev = o["events"]
+        for i, e in enumerate(ev):
+            if e["e"] == "StopRet" and any(x["e"] == "StartRet" for x in ev[:i]) and e["lines"] and \
+                    any(x["e"] == "LogRet" for x in ev[:i]):
+                return True
+        return False
+    c = first(stop_pred)
+    if c:
+        s, o = c
+        ev = o["events"]
+        i = max(k for k, e in enumerate(ev) if e["e"] == "StopRet" and e["lines"])
+        j = max(k for k in range(i) if ev[k]["e"] == "StopCall")
+        done = [f"s {e['t']} {e['a']}" for e in ev[:j] if e["e"] == "LogRet"]
+        hit = [x for x in ev[i]["lines"] if x in done]
+        if hit:
+            ev[i]["lines"].remove(hit[-1])
+            out.append(("stop snapshot lacks a completed statement", s, o))
+    # the notice is missing / the status is wrong after a handled signal
+    isn = lambda l: norm_lines([l])[0]["k"] == "n"
+    c = first(lambda s, o: s["steps"][-1][0] == "G" and any(isn(l) for l in o["lines"]))
+    if c:
+        s, o = c
+        o2 = copy.deepcopy(o)
+        o["lines"] = [l for l in o["lines"] if not isn(l)]
+        out.append(("notice removed", s, o))
+        o2["status"] = {"kind": "exited", "code": 0, "sig": 0} if o2["status"]["kind"] == "killed" else \
+            {"kind": "killed", "code": 0, "sig": 2}
+        out.append(("signal status swapped", s, o2))
+        o3 = copy.deepcopy(o2); o3["status"] = copy.deepcopy(c[1]["status"])
+        k = max(i for i, l in enumerate(o3["lines"]) if isn(l))
+        tgt = int(s["steps"][-1][1])
+        own = [i for i, l in enumerate(o3["lines"][:k]) if l.startswith(f"s {tgt} ")]
+        if own:
+            o3["lines"].append(o3["lines"].pop(own[-1]))      # the thread's last statement now FOLLOWS the notice
+            out.append(("statement after the notice", s, o3))
+    # exit: wrong code / a completed statement missing
+    c = first(lambda s, o: s["steps"][-1][0] in "XR" and any(e["e"] == "StartRet" for e in o["events"]) and o["lines"]
+              and not any(e["e"] == "StopCall" for e in o["events"]))
+    if c:
+        s, o = c
+        o2 = copy.deepcopy(o)
+        o["status"]["code"] += 1
+        out.append(("exit code changed", s, o))
+        j = max(k for k, e in enumerate(o2["events"]) if e["e"] == "EndCall")
+        done = [f"s {e['t']} {e['a']}" for e in o2["events"][:j] if e["e"] == "LogRet"]
+        hit = [x for x in o2["lines"] if x in done]
+        if hit:
+            o2["lines"].remove(hit[0])
+            out.append(("exit: completed statement removed from the file", s, o2))
+    # Backend::start left no running backend
+    c = first(lambda s, o: any(e["e"] == "StartRet" for e in o["events"]))
+    if c:
+        s, o = c
+        [e for e in o["events"] if e["e"] == "StartRet"][-1]["a"] = 0
+        out.append(("start: not running", s, o))
+    return out
 
 
 def signature(s, o, whys):
@@ -385,13 +462,33 @@ def run(ck):
         "the model abstracts timestamps (backend may pick any non-empty transit buffer) and reads all queues in one step",
         "x86-64 Linux, glibc signal() semantics; TSC clock only in ~8% of the children (50 ms calibration each)",
     ]
-    # 1. design level
-    model_check(ck, quick)
+    # 1. design level (independent of /repo; C07_ONLY_REAL=1 skips it while trying seeded changes of the code)
+    if os.environ.get("C07_ONLY_REAL") != "1":
+        model_check(ck, quick)
     ck.exhaustive = False     # exhaustive in the model for the stated bounds; real code sampled
     # 2. programs
     behs = export_programs(ck, quick)
     scns = make_scenarios(ck, behs, quick, rng)
     del behs
+    mix = {}
+    for s in scns:
+        e = s["steps"][-1]
+        k = "return" if e == "R" else "exit" if e[0] == "X" else "sig" + SIGNAME[int(e.split(":")[1])] + ":" + e.split(":")[2][0]
+        mix[k] = mix.get(k, 0) + 1
+        for a in ("clock", "gate", "sync"):
+            mix[f"{a}={s['attrs'][a]}"] = mix.get(f"{a}={s['attrs'][a]}", 0) + 1
+        if sum(1 for x in s["steps"] if x[0] == "S") >= 2:
+            mix["restart"] = mix.get("restart", 0) + 1
+        if any(x[0] == "P" for x in s["steps"]):
+            mix["stop"] = mix.get("stop", 0) + 1
+        if any(x[0] == "F" for x in s["steps"]):
+            mix["finished-worker"] = mix.get("finished-worker", 0) + 1
+    ck.extra["scenario_mix"] = dict(sorted(mix.items()))
+    need = ["return", "exit", "stop", "restart", "finished-worker", "clock=tsc", "gate=1", "gate=2", "sync=free"] + \
+        [f"sig{n}:r" for n in SIGNUM] + ["sigSEGV:f", "sigFPE:f", "sigILL:f", "sigABRT:f", "sigINT:p", "sigTERM:k"]
+    for k in need:
+        if not mix.get(k):
+            raise vlib.Infra(f"vacuity: no scenario of kind {k} in this run")
     if len(scns) < (150 if quick else 1500):
         raise vlib.Infra(f"too few scenarios ({len(scns)})")
     # 3. real executions
@@ -411,6 +508,16 @@ def run(ck):
     # 4. the contract's verdict
     rej = validate(ck, pairs)
     ck.traces_validated += len(pairs) - len(rej)
+    # self-test of the trace spec: corrupted copies of accepted executions must all be rejected
+    bad = corrupted([p for i, p in enumerate(pairs) if i not in rej])
+    if not rej and len(bad) < 6:
+        raise vlib.Infra(f"trace self-test could build only {len(bad)} corrupted observations")
+    if bad:
+        rb = validate(ck, [(s, o) for _, s, o in bad])
+        for i, (what, s, o) in enumerate(bad):
+            if i not in rb:
+                raise vlib.Infra(f"vacuity: the contract accepts a corrupted observation ({what}): {scn_line(s)}")
+        ck.extra["corrupted_observations_rejected"] = len(bad)
     ck.extra["rejected_first_pass"] = len(rej)
     drift = 0
     for i, (s, o) in enumerate(pairs):
@@ -443,7 +550,10 @@ def run(ck):
             s, o = pairs[by_sig[sig][0]]
             ck.drifted(f"unconfirmed rejection class {sig} ({len(by_sig[sig])} scenarios), e.g. {scn_line(s)}")
     for sig, (s, o, whys, reruns) in sorted(confirmed.items()):
-        ck.violation(sig, f"{scn_line(s)} -> status {o['status']}, file {o['lines']}: {whys[0][0]}",
+        snap = [e["lines"] for e in o["events"] if e["e"] == "StopRet"]
+        seen = f"file when stop() returned {snap[-1]}" if whys[0][1] == "stopret" and snap else \
+            f"status {o['status']}, file at process end {o['lines']}"
+        ck.violation(sig, f"{scn_line(s)} -> {seen}: {whys[0][0]}",
                      {"scenario": scn_line(s), "harness": "h_life", "observation": o, "trace": trace_of(o),
                       "contract_says": [w[0] for w in whys], "reruns": [{"status": r["status"], "lines": r["lines"]} for r in reruns],
                       "same_class_scenarios": [scn_line(pairs[i][0]) for i in by_sig[sig][:10]]})
